@@ -241,6 +241,9 @@ func tryConvertByUnderlyingType(fk errdef.FieldKey, value any, targetType, value
 	}
 
 	if targetType.Kind() == valueType.Kind() && targetType != valueType {
+		if !valueType.ConvertibleTo(targetType) {
+			return nil, false, nil
+		}
 		converted := reflect.ValueOf(value).Convert(targetType).Interface()
 		v, ok := fk.NewValue(converted)
 		return v, ok, nil
@@ -265,7 +268,7 @@ func tryConvertPointer(fk errdef.FieldKey, value any, targetType, valueType refl
 		return nil, false, nil
 	}
 
-	if elemKind != valueType.Kind() {
+	if elemKind != valueType.Kind() || !valueType.ConvertibleTo(elemType) {
 		return nil, false, nil
 	}
 
